@@ -181,6 +181,11 @@ fn update_file_content_inner(file_name: &str, content: &str) {
     });
     BUNDLER.with(|b| {
         let mut b = b.borrow_mut();
+        // a file the session did not have: modules parsed earlier resolved their imports while it was missing,
+        // so they are read again on the next rebuild
+        if !b.files.contains_key(&file_name) {
+            b.files.clear();
+        }
         match res {
             Ok(f) => {
                 b.files.insert(file_name, f);
